@@ -365,8 +365,15 @@ func r06_4(c *Ctx) {
 						}
 					}
 				}
-				c.check(good, name, P.ipos(ret), "nil only after the unsubscription of its own done channel was handed to the loop",
-					"Subscribe returns nil without having handed its unsubscription to the loop: the writer can be called after Subscribe returned")
+				if !good {
+					c.bad(name, P.ipos(ret), "Subscribe returns nil without having handed its unsubscription to the loop: the writer can be called after Subscribe returned")
+				} else {
+					// D10: the select that hands over the unsubscription also has the `<-done` case; when both are
+					// ready (Joe already removed this subscriber because its Send/Flush failed, and is idle) the
+					// choice is random, so a constant nil here drops the subscriber's own error
+					c.bad(name, P.ipos(ret), "Subscribe returns the constant nil right after handing over its unsubscription, without looking at done again: when the subscriber's Send/Flush failure and its cancellation race, the error Joe had already reported (still buffered in done) is dropped in about half the cases",
+						"failing schedule: a subscriber whose Send cancels its own context and returns an error; one Publish -> Subscribe returns nil instead of the Send error in ~50% of the runs (the third select picks `j.unsubscription <- done` over the buffered error)")
+				}
 			default:
 				// value received from its own done channel
 				good := false
